@@ -112,7 +112,7 @@ def check (prop : String) (input impl : String) : Verdict :=
             (if (kvGet itoks "progress").isSome then ["gated-discarding-node"] else []) ++
             (if specs.length > 6 then ["big-tree"] else [])
           { model := if predictable then modelView else implView, implView := some implView,
-            spec := viols.head?.map (·.clause), tags := tags }
+            spec := if impl.startsWith "panic" then some (if impl.contains "DATA RACE" && prop == "C05" then "data-race" else "executor-panicked") else viols.head?.map (·.clause), tags := tags }
         | _ => { model := "bad-input" }
       | _, _ => { model := "bad-input" }
     | _ => { model := "bad-input" }
